@@ -601,8 +601,15 @@ func OnRun(f func()) { runHooks = append(runHooks, f) }
 
 var runHooks []func()
 
+var epoch uint64
+
+// Epoch numbers the executions (1, 2, ...). Shim objects with process-wide lifetime (package-level sync.Once,
+// sync.Pool) tag their state with it and start every execution as in a fresh process.
+func Epoch() uint64 { return epoch }
+
 // Run executes body once under the scheduler, following prefix and then the base policy.
 func Run(prefix []int, policy int, maxSteps int, body func()) Outcome {
+	epoch++
 	for _, h := range runHooks {
 		h()
 	}
